@@ -36,6 +36,10 @@ def judge(res, facts, inject, label, base, cnt):
         if not st["idle"] and not st["closed"] and not st["expired"]:
             out.append((f"stuck:{conn_state_name(st['info'])}", {"conn": st}))
             break
+    cnt["oracle_reuse"] = cnt.get("oracle_reuse", 0) + 1
+    if facts.get("reuse_probe", "ok") != "ok":
+        out.append((f"pooled-connection-cannot-serve:{facts['reuse_probe']}", {"conns_before": facts["conns"],
+                                                                               "conns_after": facts.get("reuse_probe_conns")}))
     cnt["oracle_p3"] += 1
     p = facts["probe"]
     if p["got"] < p["wanted"]:
@@ -56,7 +60,7 @@ def judge(res, facts, inject, label, base, cnt):
         out.append((f"cocaller-failed:{exc_name(o.exc) if o.kind == 'exc' else o.kind}", {"who": name, "outcome": repr(o)}))
     # one defect, one finding: report the primary symptom, keep the rest as detail
     if len(out) > 1:
-        order = ["stuck", "request-still-counted", "capacity-lost", "hang", "cocaller-failed"]
+        order = ["stuck", "request-still-counted", "capacity-lost", "hang", "pooled-connection-cannot-serve", "cocaller-failed"]
         out.sort(key=lambda x: next((i for i, p in enumerate(order) if x[0].startswith(p)), 9))
         out = [(out[0][0], {"primary": out[0][1], "also": [x[0] for x in out[1:]]})]
     return out
